@@ -269,7 +269,8 @@ def aggregate(mod, prop, tier, seed, shards, results, t0):
                 [sys.executable, '-m', 'xlmc.cli', prop, '--replay', path,
                  '--quiet'],
                 cwd=VERIF, env=dict(os.environ, PYTHONHASHSEED='1',
-                                    XLMC_NO_REVERIFY='1'),
+                                    XLMC_NO_REVERIFY='1',
+                                    XLMC_REPLAY_MASK_KNOWN='1'),
                 stdout=subprocess.DEVNULL, stderr=subprocess.DEVNULL).returncode
             if rc != 1:
                 # The single case passes on its own.  If the whole shard, run
@@ -283,7 +284,8 @@ def aggregate(mod, prop, tier, seed, shards, results, t0):
                     [sys.executable, '-m', 'xlmc.cli', prop, '--replay', path,
                      '--quiet'],
                     cwd=VERIF, env=dict(os.environ, PYTHONHASHSEED='1',
-                                        XLMC_NO_REVERIFY='1'),
+                                        XLMC_NO_REVERIFY='1',
+                                        XLMC_REPLAY_MASK_KNOWN='1'),
                     stdout=subprocess.DEVNULL,
                     stderr=subprocess.DEVNULL).returncode
                 if rc2 != 1:
@@ -369,8 +371,14 @@ def replay(modname, prop, path, quiet=False):
     init = getattr(mod, 'init_worker', None)
     if init:
         init('quick')
-    ctx = Ctx(prop, doc.get('tier') or 'quick', [])
-    # (known findings do not mask a replay)
+    # Known findings do not mask the replay of a single case asked for by a
+    # user.  They do when the runner confirms a violation (a case that only
+    # shows a listed finding when run alone has not been reproduced) and in a
+    # shard replay (where every case of the shard runs again).
+    mask = (os.environ.get('XLMC_REPLAY_MASK_KNOWN') == '1'
+            or doc.get('replay_as') == 'shard')
+    ctx = Ctx(prop, doc.get('tier') or 'quick',
+              findings_mod.for_property(prop) if mask else [])
     if doc.get('replay_as') == 'shard':
         # history-dependent failure: the counterexample is the shard, the
         # verdict is whether the recorded case fails in it again
